@@ -5,7 +5,7 @@ PID = 'C03'
 
 CLAIM = dict(
     text='Dense.tla defines every Matrix operation as a mathematical operator. TLC (i) explores every editing history of depth 2-3 on all shapes 0..2(3) x 0..2(3) checking the shape invariant and the algebraic laws in every state, (ii) enumerates those histories as cases that are replayed on the real Matrix<Rat/f64/Complex/i64>, and (iii) validates, event by event, recorded executions of the real code over all shapes 0..8 exhaustively and random 50-200 step histories: each post-state/return value must equal the operator applied to the model state. Exact (integers); a single wrong element, shape or missing panic in any recorded step is rejected.',
-    note='Trusted: TLC, the Dense.tla operators (cross-checked by the algebraic laws), the harness projection of a Matrix to integers. Element values are small integers (exact in every element type); complex matrices are validated as real and imaginary parts. norm_p/norm_frob are judged against an independent evaluation in units of 4*r*c*eps (harness measurement).',
+    note='Trusted: TLC, the Dense.tla operators (cross-checked by the algebraic laws), the harness projection of a Matrix to integers. Element values are small integers (exact in every element type); complex matrices are validated as real and imaginary parts. norm_p/norm_frob are judged against an independent evaluation in units of 16*(r*c+1)*eps (harness measurement).',
     design='4 (C03)')
 
 
